@@ -425,6 +425,23 @@ def check(PROP, tier, seed, replay, parts=None, extra_modules=()):
         found_input = True
     core.log(PROP, f"cases {res.cases} runs {res.runs} ops {res.ops}; judge violations {len(jv)}, model mismatches {len(res.mismatch)} "
                    f"(over {res.modelled_runs} modelled runs, {res.model_lines} lines), crashes/deadlocks {len(res.crashes)}")
+    # further parts of the property with their own executor (C10: the posix poller under thread schedules, vlib/props/c10_pfd.py):
+    # run BEFORE the verdict on broken proofs / correspondences, so that those are reported as `no-failing-input-found`
+    # only when no part found a failing input either
+    part_cov, part_evals, part_noinput = {}, 0, []
+    for name, fn in (parts or []):
+        pc, pv = fn(tier, seed, st, replay)
+        part_cov[name + "_part"] = {k: x for k, x in pc.items() if k != "samples"}
+        part_evals += pc.get("cases", 0)
+        for tag, payload, no_input in pv:
+            if no_input:
+                part_noinput.append((tag, payload))
+            else:
+                v.violation(tag, payload, no_input=False)
+                found_input = True
+    if not found_input:
+        for tag, payload in part_noinput:
+            v.violation(tag, payload, no_input=True)
     if not found_input:
         if res.mismatch:
             mm = res.mismatch[0]
@@ -459,14 +476,8 @@ def check(PROP, tier, seed, replay, parts=None, extra_modules=()):
         cov["device_teardown"] = device_teardown_probe(v)
         cov["device_close"] = device_close_probe(v)
         cov["parked_dialers"] = parked_dialers_probe(v)
-    # further parts of the property with their own executor (C10: the posix poller under thread schedules, vlib/props/c10_pfd.py)
-    for name, fn in (parts or []):
-        pc, pv = fn(tier, seed, st, replay)
-        cov[name + "_part"] = {k: x for k, x in pc.items() if k != "samples"}
-        cov["evaluations"] += pc.get("cases", 0)
-        for tag, payload, no_input in pv:
-            if not no_input or not v.violations:
-                v.violation(tag, payload, no_input=no_input)
+    cov.update(part_cov)
+    cov["evaluations"] += part_evals
     core.write_evidence(PROP, tier, seed, "proof", cov,
                         ["the mock transport honours the transport contract of the real transports (teardown of real descriptors is not exercised)",
                          "termination of close is proved for the model and observed (exact deadlock detection) for the explored schedules of the code",
